@@ -332,3 +332,23 @@ NODES += [
          ],
          safety_id="C04.function_call.safety"),
 ]
+
+
+UNITS["v_value_error_from"] = dict(
+    prop=["C06", "C07", "C08"], tier="q", prelude=["interp.rs", "nodes.rs", "op.rs"],
+    fns=[dict(
+        id="value_error_from", file="src/compiler/value/error.rs", impl="impl From<ValueError> for ExpressionError", name="from",
+        orig_sig="fn from(err: ValueError) -> Self",
+        sig="pub fn value_error_from(err: ValueError) -> (r: ExpressionError)",
+        rewrites=[dict(**{"from": "Self::Error", "to": "ExpressionError::Error", "why": "Self = ExpressionError"}),
+                  dict(**{"from": "vec![]", "to": "opaque_list()", "why": "labels/notes are opaque"})],
+        ensures=[
+            ("C06.value_error_from.return", "a `return` carried through ValueError::Or (rhs of `||`) converts back to the same return",
+             "err is Or && err->Or_0 is Return ==> r == err->Or_0"),
+            ("C07.value_error_from.abort", "an `abort` carried through ValueError::Or (rhs of `||`) converts back to the same abort",
+             "err is Or && err->Or_0 is Abort ==> r == err->Or_0"),
+            ("C08.value_error_from.error", "every other value error becomes a plain runtime error (which `??` and `ok, err =` may capture)",
+             "!(err is Or && is_ctl(err->Or_0)) ==> r is Error"),
+        ],
+        safety_id="C04.value_error_from.safety")],
+)
